@@ -75,6 +75,9 @@ func genProgBody(rng *rand.Rand, depth int) []progNode {
 			}
 			if rng.Intn(6) == 0 {
 				out[len(out)-1].Share = 1 + rng.Intn(3) // a prefix of the slice the previous route was given
+			} else if depth > 0 && (i+depth)%4 == 0 {
+				// (no draw of its own) inside a group a route may have no handlers of its own: its chain is its groups'
+				out[len(out)-1].NH = 0
 			}
 		case k < 11 && depth < 4, k < 11 && depth < 8 && rng.Intn(3) == 0:
 			nh := rng.Intn(3)
